@@ -17,7 +17,7 @@ PROPS = {
                 "distinct by hash of the op input",
     },
     "C17": {
-        "families": [fam("c17", 1000, 12000)],
+        "families": [fam("c17", 2500, 40000)],
         "rule": "URLs of the property's grammar (scheme://host[:port][/path|?query][#fragment]) with hosts drawn from the PSL's own rule "
                 "shapes (multi-level, wildcard, exception, private suffixes, single labels, unknown TLDs, IPv4), sources of the same shape "
                 "(same registrable domain / other / none), plus odd and mutated URLs and URLs around the 4 KiB cap; c17.req/c17.hostreq/"
